@@ -37,6 +37,10 @@ static inline weak_ptr_size weak_ptr_size_default(void) { weak_ptr_size w; w.gen
 static inline weak_ptr_size *weak_ptr_size_assign(weak_ptr_size *dst, weak_ptr_size src) { *dst = src; return dst; }
 static inline void weak_ptr_size_dtor(weak_ptr_size *w) { (void)w; }
 static inline _Bool weak_ptr_size_expired(const weak_ptr_size *w) { return !w->bound || !sim_gen_alive[w->gen]; }
+static size_t sim_promoted_dummy;
+static inline shared_ptr_size weak_ptr_size_lock(const weak_ptr_size *w) { shared_ptr_size p; p.ptr = weak_ptr_size_expired(w) ? 0 : &sim_promoted_dummy; return p; }
+static inline _Bool shared_ptr_size_bool(const shared_ptr_size *p) { return p->ptr != 0; }
+static inline void shared_ptr_size_dtor(shared_ptr_size *p) { p->ptr = 0; }
 static inline void vec_size_reserve(vec_size *v, size_t n) { if(n > v->cap) { v->data = realloc(v->data, n * sizeof(size_t)); v->cap = n; } }
 static inline void vec_size_emplace_back(vec_size *v, size_t x) { if(v->size == v->cap) vec_size_reserve(v, v->cap ? 2 * v->cap : 4); v->data[v->size++] = x; }
 static inline size_t *vec_size_back(vec_size *v) { if(v->size == 0) { printf("EMPTY_BACK\n"); exit(3); } return &v->data[v->size - 1]; }
@@ -104,6 +108,7 @@ static inline double uniform_real_dist_call(uniform_real_dist *d, rand_engine *g
 }
 static inline double verif_pow(double b, double e) { return pow(b, e); }
 static inline double verif_log(double x) { return log(x); }
+static inline double verif_fabs(double x) { return fabs(x); }
 #endif /* VERIF_NATIVE_EPOCH */
 extern _Bool verif_thrown;
 #endif
